@@ -483,11 +483,13 @@ def _nested_run_resolves(
     if source == ValueSource.DEFAULT:
         return True
     if source == ValueSource.BOUND:
-        # Only the node's OWN inner binding (another nested graph may expose a
-        # binding under the same name, which this node then receives from here).
+        # The node's OWN inner binding wins, even when a sibling nested graph
+        # exposes another binding under the same name (the outer InputSpec keeps
+        # only the first of them). Without a binding of its own the node
+        # receives the sibling's from here.
         own = node._graph.inputs.bound
         original_param = node._resolve_original_input_name(param)
-        return original_param in own and own[original_param] is value
+        return original_param in own
     return False
 
 
